@@ -37,3 +37,27 @@ Proof.
   destruct Hf as [-> | ->]; destruct (g_on4 g), (g_on6 g), (g_def g), (g_multi g);
     cbn [flat_map app filter is_def length maxlen Z.eqb andb Pos.eqb]; rewrite ?T; cbn [andb filter length app]; reflexivity.
 Qed.
+
+(* ---- the exclusive-interface and vlan container configurations (DpModel.own_cont_cfg) ---------------------------- *)
+Definition own_routes (vlan : bool) (g : gcfg) (li : Z) : list (list Z) :=
+  flat_map (fun f =>
+       (if (f =? 6) && negb vlan then [route 0 6 (g_gw g) 128 0 0 li 253 0] else [])
+       ++ (if g_def g then [route 0 f 0 0 f (g_gw g) li 0 1] else [])
+       ++ (if g_multi g then [route (tbl_of li) f 0 0 f (g_gw g) li 0 1] else [])) (fams g).
+Lemma own_cont_cfg_shape vlan g li :
+  exists addrs rules,
+    own_cont_cfg vlan g li =
+    addrs ++ (Z.of_nat (length (own_routes vlan g li ++ map (extra_route li) (g_extra g))) :: concat (own_routes vlan g li ++ map (extra_route li) (g_extra g)))
+    ++ rules ++ [0].
+Proof. unfold own_cont_cfg, own_routes. eexists. eexists. reflexivity. Qed.
+(* exactly one default route per enabled family in the main table when one is asked for, none otherwise (extra routes
+   are never default routes: their prefix lengths are 24 and 120) *)
+Theorem own_one_default vlan g li f : 0 <= li -> (f = 4 \/ f = 6) ->
+  length (filter (is_def f) (own_routes vlan g li)) = if (if f =? 4 then g_on4 g else g_on6 g) && g_def g then 1%nat else 0%nat.
+Proof.
+  intros Hli Hf. unfold own_routes, fams, route.
+  assert (T : tbl_of li =? 0 = false) by (apply Z.eqb_neq; unfold tbl_of; lia).
+  set (t := tbl_of li) in *. set (gw := g_gw g).
+  destruct Hf as [-> | ->]; destruct vlan, (g_on4 g), (g_on6 g), (g_def g), (g_multi g);
+    cbn [flat_map app filter is_def length maxlen Z.eqb andb negb Pos.eqb]; rewrite ?T; cbn [andb filter length app]; reflexivity.
+Qed.
